@@ -241,9 +241,15 @@ def run_case(ctx, case):
         for i_, f_ in enumerate(m.faces):
             fv[i_, : len(f_)] = m.xyz[f_]
         mkc = lambda a_: U.Grid.from_face_vertices(np.array(a_), latlon=False)  # noqa: E731
-        P_ = fv[0, 0] + np.array([3e-7, -2e-7, 1e-7])
+        # (the corner that is moved lies well away from the poles: inside the pole-snapping band a moved corner is still reported AT
+        # the pole, i.e. the two grids would rightly be equal)
+        cand = [(a_, b_) for a_ in range(m.n_face) for b_ in range(len(m.faces[a_])) if abs(fv[a_, b_, 2]) < 0.99]
+        if not cand:
+            raise RuntimeError("no corner away from the poles")
+        a_, b_ = cand[int(rng.integers(0, len(cand)))]
+        P_ = fv[a_, b_] + np.array([3e-7, -2e-7, 1e-7])
         fv2 = fv.copy()
-        same_pt = np.all(fv2 == fv[0, 0], axis=-1)
+        same_pt = np.all(fv2 == fv[a_, b_], axis=-1)
         fv2[same_pt] = P_ / np.linalg.norm(P_)
         for first in ("node_lat", "node_lon", "face_lat", "edge_lat", "bounds"):
             left, right = mkc(fv), mkc(fv)
@@ -258,6 +264,8 @@ def run_case(ctx, case):
             judge("cartesian_only:copy_taken_after", left, left.copy(), True, ex)
             judge("cartesian_only:vs_one_corner_moved", left, mkc(fv2), False, ex)
         ctx.observe("cartesian_only_histories")
+    except RuntimeError:
+        ctx.observe("cartesian_only_history_skipped")
     except Exception as e:
         ctx.check("no_exception", False, {"history": "cartesian_only", "exc": core.exc_sig(e)}, {"exc": repr(e)})
     # (4) dask-backed grids (Grid.chunk()): same judgement as for the in-memory ones
